@@ -115,7 +115,11 @@ class C14(Check):
             ivs = {}
             for variant in (rel, rel.upper() if all(c.isascii() for c in rel) else rel, rel.replace('/', '\\'),
                             ''.join(c.upper() if (c.isascii() and k % 2) else c for k, c in enumerate(rel)),
-                            '/' + rel[1:2].upper() + rel[2:] if rel[1:2].isascii() else rel):
+                            '/' + rel[1:2].upper() + rel[2:] if rel[1:2].isascii() else rel,
+                            # mixed separators: all but the leading one, only the leading one, only the last one, alternating
+                            '/' + rel[1:].replace('/', '\\'), '\\' + rel[1:],
+                            '\\'.join(rel.rsplit('/', 1)),
+                            ''.join(('\\' if (c == '/' and rel[:k].count('/') % 2) else c) for k, c in enumerate(rel))):
                 iv = eng.sd_path_to_iv(variant)
                 ivs[variant] = iv
                 outs.append(str(iv))
